@@ -93,8 +93,10 @@ class Finders:
     if gfa_line.record_type == "L":
       previous = self._search_link(gfa_line.oriented_from,
                                    gfa_line.oriented_to, gfa_line.alignment)
-      if previous is None:
-        previous = self.__search_edge_id(gfa_line)
+      if previous is None or previous.virtual:
+        same_id = self.__search_edge_id(gfa_line)
+        if same_id is not None:
+          previous = same_id
       return previous
     elif gfa_line.record_type == "C":
       return self.__search_edge_id(gfa_line)
